@@ -38,6 +38,9 @@ N_MODS = 24          # importable modules zzq_mod_<i> with VALUE = i, known to t
 N_FNS = 6            # `from zzq_src import zzq_fn_<i>` known to the database
 N_BAD = 4            # zzq_bad_<i>: known to the database, raise RuntimeError when imported
 CMP = "abcdefgh"     # zzq_cmp_<c>_mod: known names used only by `complete` ops (one distinct prefix each)
+N_INT = 3            # zzq_int_<i> / zzq_exit_<i>: known to the database; importing them raises KeyboardInterrupt / SystemExit
+                     # (the user hits Ctrl-C during a slow import; a module that calls sys.exit() at import time)
+N_CALL = 6           # `from zzq_src import zzq_call_<i>` (accepts any arguments): for autocall cells `zzq_call_3 7`
 CHILD_TIMEOUT_S = 40
 MAX_PAR = max(2, min(14, (os.cpu_count() or 4) - 2))
 
@@ -50,8 +53,22 @@ F_OPS = ["f_rebind_ast", "f_rebind_cleanup", "f_rebind_post", "f_add_ast", "f_rm
 # third-party steps that remove pyflyby's own entries (a reset of the list, an over-eager clean-up)
 F_REMOVALS = ["f_clear_ast", "f_drop_pf_ast", "f_drop_pf_cleanup"]
 F_WRAP = "f_wrap"       # foreign advice on top of a joinpoint (kept out of the generated alphabet, see notes/C14.md)
+F_WRAP_GM = "f_wrap_gm"  # another extension wraps ip.Completer.global_matches, keeping the previous callable (C13 only, O-only)
 
 OPS = ["enable", "enable_again", "disable", "load_ext", "unload_ext", "reload_ext", "run_cell", "complete"]
+# round 4: other ways in which "a cell reads a known name" (each reaches a different installed hook) ...
+CELL_FORMS = ["pinfo", "autocall", "prun", "run_script", "complete_attr"]
+# ... and cells whose auto-import is interrupted by a BaseException raised by the imported module
+INTERRUPT_OPS = ["run_kbint", "run_sysexit"]
+CELL_OPS = ["run_cell"] + CELL_FORMS[:4] + INTERRUPT_OPS        # executed through ip.run_cell
+COMPLETE_OPS = ["complete", "complete_attr"]
+OBS_OPS = CELL_OPS + COMPLETE_OPS
+# round 4: ops on an application that is not initialised yet (config "preinit"): a prefix over PRE_OPS, then exactly one of
+# INIT_OPS (app.initialize(argv) / the same with `--ext pyflyby`, i.e. IPython loads the extension in init_extensions),
+# then ordinary ops
+PRE_OPS = ["enable", "enable_again", "disable"]
+INIT_OPS = ["initialize", "initialize_ext"]
+ARGV = ["--simple-prompt", "--no-banner", "--colors=nocolor", "--HistoryManager.enabled=False"]
 
 
 # ----------------------------------------------------------------------------
@@ -67,6 +84,16 @@ def make_env(root):
     with open(os.path.join(mods, "zzq_src.py"), "w") as f:
         for i in range(N_FNS):
             f.write(f"def zzq_fn_{i}():\n    return {2000 + i}\n")
+        for i in range(N_CALL):
+            f.write(f"def zzq_call_{i}(*a):\n    return ({3000 + i}, a)\n")
+    for i in range(N_INT):
+        with open(os.path.join(mods, f"zzq_int_{i}.py"), "w") as f:
+            f.write("raise KeyboardInterrupt\n")
+        with open(os.path.join(mods, f"zzq_exit_{i}.py"), "w") as f:
+            f.write("import sys\nsys.exit(3)\n")
+    for i in range(N_MODS):
+        with open(os.path.join(mods, f"zzq_scr_{i}.py"), "w") as f:
+            f.write(f"zzq_scr_value_{i} = zzq_mod_{i}.VALUE + 1\nprint('script {i} ran', zzq_scr_value_{i})\n")
     for i in range(N_BAD):
         with open(os.path.join(mods, f"zzq_bad_{i}.py"), "w") as f:
             f.write(f"raise RuntimeError('zzq_bad_{i} refuses to be imported')\n")
@@ -94,6 +121,10 @@ def make_env(root):
             f.write(f"import zzq_bad_{i}\n")
         for c in CMP:
             f.write(f"import zzq_cmp_{c}_mod\n")
+        for i in range(N_CALL):
+            f.write(f"from zzq_src import zzq_call_{i}\n")
+        for i in range(N_INT):
+            f.write(f"import zzq_int_{i}\nimport zzq_exit_{i}\n")
     with open(os.path.join(root, "db_malformed.py"), "w") as f:
         f.write("import zzq_mod_0\nthis is not ( python\n")
     # "unreadable": a directory entry that cannot be read as a file even by root
@@ -200,11 +231,40 @@ def _build_shell(config):
     if config in ("terminal", "jedi"):
         from IPython.terminal.ipapp import TerminalIPythonApp
         app = TerminalIPythonApp.instance()
-        argv = ["--simple-prompt", "--no-banner", "--colors=nocolor", "--HistoryManager.enabled=False"]
+        argv = list(ARGV)
         if config == "terminal":
             argv.append("--Completer.use_jedi=False")
         app.initialize(argv)
         ip = app.shell
+    elif config == "usermod":
+        # an application that gives its shell a module AND a separate local namespace (the public constructor
+        # parameters `user_module` / `user_ns`, what IPython.embed() inside a function amounts to):
+        # ip.user_ns is not ip.user_global_ns
+        import types
+        from IPython.terminal.ipapp import TerminalIPythonApp
+        mod = types.ModuleType("zzq_embedding_module")
+        mod.zzq_global = 1
+        local_ns = {"zzq_local": 2}
+
+        class ZzqUserModApp(TerminalIPythonApp):
+            def init_shell(self):
+                self.shell = self.interactive_shell_class.instance(
+                    parent=self, profile_dir=self.profile_dir, ipython_dir=self.ipython_dir,
+                    user_ns=local_ns, user_module=mod)
+                self.shell.configurables.append(self)
+        app = ZzqUserModApp.instance()
+        app.initialize(ARGV + ["--Completer.use_jedi=False"])
+        ip = app.shell
+        assert ip.user_ns is local_ns and ip.user_global_ns is mod.__dict__ and ip.user_ns is not ip.user_global_ns
+    elif config == "preinit":
+        # the application object exists, app.initialize() has not run: no shell yet (the situation of `py`,
+        # start_ipython_with_autoimporter() and of pyflyby.enable_auto_importer() in ipython_config.py)
+        from IPython.terminal.ipapp import TerminalIPythonApp
+        import IPython.core.interactiveshell, IPython.core.completer, IPython.core.debugger  # noqa
+        import IPython.terminal.debugger, IPython.core.magics  # noqa
+        app = TerminalIPythonApp.instance()
+        G.update(ip=None, app=app, config=config, root=root, repo=repo)
+        return None
     elif config == "embedded":
         from traitlets.config import Config
         from IPython.core.interactiveshell import InteractiveShell
@@ -219,6 +279,11 @@ def _build_shell(config):
     else:
         raise ValueError(config)
     G.update(ip=ip, app=app, config=config, root=root, repo=repo)
+    _warm_up(ip)
+    return ip
+
+
+def _warm_up(ip):
     # materialise IPython's lazily created attributes before any snapshot is taken
     from IPython.utils.capture import capture_output
     with capture_output():
@@ -227,7 +292,18 @@ def _build_shell(config):
         ip.complete("zzq_warm")
         ip.complete("os.pa")
         ip.run_cell("pass", store_history=False)
-    return ip
+
+
+def lab_initialize(with_ext):
+    """config "preinit", in the child: app.initialize(); `with_ext`: IPython itself loads the pyflyby extension
+    (InteractiveShellApp.extra_extensions, as `ipython --ext pyflyby` / c.InteractiveShellApp.extensions do)"""
+    app = G["app"]
+    argv = ARGV + ["--Completer.use_jedi=False"]
+    if with_ext:
+        argv += ["--ext", "pyflyby"]
+    app.initialize(argv)
+    G["ip"] = app.shell
+    _warm_up(app.shell)
 
 
 def _child(job, outpath):
@@ -237,6 +313,7 @@ def _child(job, outpath):
         os.dup2(dn, 0)
         signal.alarm(CHILD_TIMEOUT_S)
         kind = job.get("kind")
+        cov = _cov_start() if os.environ.get("LAB_COV") else None
         if kind == "c14":
             obs = run_c14(job)
         elif kind == "c13":
@@ -250,10 +327,40 @@ def _child(job, outpath):
         obs = {"lab_error": "child exception: " + "".join(traceback.format_exception_only(type(e), e)).strip(),
                "tb": traceback.format_exc()[-1500:]}
     try:
+        if os.environ.get("LAB_COV"):
+            _cov_dump()
         with open(outpath, "w") as f:
             json.dump(obs, f, default=str)
     finally:
         os._exit(0)
+
+
+_COV_HITS = set()
+
+
+def _cov_start():
+    """dev aid (LAB_COV=<dir>): line coverage of pyflyby inside the forked child, see notes/C14.md 'covgap'"""
+    mon = sys.monitoring
+    tool = mon.COVERAGE_ID
+    try:
+        mon.use_tool_id(tool, "labcov")
+    except ValueError:
+        pass
+    prefix = os.path.join(os.path.realpath(G.get("repo") or os.environ.get("VERIF_REPO", "/repo")), "lib", "python", "pyflyby")
+
+    def line_cb(code, line):
+        if code.co_filename.startswith(prefix):
+            _COV_HITS.add((code.co_filename, line))
+        return mon.DISABLE
+    mon.register_callback(tool, mon.events.LINE, line_cb)
+    mon.set_events(tool, mon.events.LINE)
+    return True
+
+
+def _cov_dump():
+    d = os.environ["LAB_COV"]
+    with open(os.path.join(d, "cov_%d.json" % os.getpid()), "w") as f:
+        json.dump(sorted(_COV_HITS), f)
 
 
 def _zygote_main(config):
@@ -372,6 +479,11 @@ _PRIM = (str, bytes, int, float, bool, type(None))
 def _containers():
     ip, app = G["ip"], G["app"]
     out = {}
+    if ip is None:          # config "preinit" before app.initialize(): only the application exists
+        out["app"] = app.__dict__
+        out["app.traits"] = app._trait_values
+        _class_containers(out)
+        return out
     out["ip"] = ip.__dict__
     out["ip.traits"] = ip._trait_values
     comp = getattr(ip, "Completer", None)
@@ -398,18 +510,7 @@ def _containers():
     if app is not None:
         out["app"] = app.__dict__
         out["app.traits"] = app._trait_values
-    try:
-        from IPython.core import debugger
-        out["Pdb"] = {"__init__": vars(debugger.Pdb).get("__init__")}
-        from IPython.terminal.debugger import TerminalPdb
-        out["TerminalPdb"] = {"__init__": vars(TerminalPdb).get("__init__")}
-    except Exception:
-        pass
-    try:
-        from traitlets.config.configurable import SingletonConfigurable
-        out["SingletonConfigurable"] = {"instance": vars(SingletonConfigurable).get("instance")}
-    except Exception:
-        pass
+    _class_containers(out)
     try:
         out["events"] = ip.events.callbacks
         out["hooks"] = dict(ip.hooks)
@@ -420,6 +521,34 @@ def _containers():
     except Exception:
         pass
     return out
+
+
+def _class_containers(out):
+    try:
+        from IPython.core import debugger
+        out["Pdb"] = {"__init__": vars(debugger.Pdb).get("__init__")}
+        from IPython.terminal.debugger import TerminalPdb
+        out["TerminalPdb"] = {"__init__": vars(TerminalPdb).get("__init__")}
+    except Exception:
+        pass
+    try:
+        from traitlets.config.configurable import SingletonConfigurable
+        out["SingletonConfigurable"] = {"instance": vars(SingletonConfigurable).get("instance")}
+        from traitlets.config.application import Application
+        out["Application"] = {"instance": vars(Application).get("instance")}
+    except Exception:
+        pass
+
+
+def shape(snap):
+    """a snapshot without object identities: {key: kind/pyflyby?/name}; comparable between two processes"""
+    def sh(t):
+        if t[0] == "l":
+            return ["l", [sh(e) for e in t[1]]]
+        if t[0] == "o":
+            return ["o", t[2], t[3]]
+        return t
+    return {k: sh(v) for k, v in snap.items()}
 
 
 def snapshot(ident):
@@ -482,6 +611,8 @@ JOINPOINTS = [
     ("debugger", lambda ip: (ip.InteractiveTB.__dict__, "debugger")),
     ("run_with_debugger", lambda ip: (ip.magics_manager.magics["line"]["debug"].__self__.__dict__, "_run_with_debugger")),
 ]
+# the attributes _enable_initializer_hooks advises on an application that has no shell yet
+APP_JOINPOINTS = ["init_shell", "initialize_subcommand"]
 HOOKLISTS = [("ast_transformers", lambda ip: ip.ast_transformers),
              ("input_transformers_cleanup", lambda ip: ip.input_transformers_cleanup)]
 
@@ -491,16 +622,10 @@ def model_view(ident):
        joinpoint -> "unset" | ["adv", depth]  (depth = number of pyflyby wrappers stacked) | ["ext"]
        hook list -> list of "ext" | "pf"."""
     ip = G["ip"]
-    jp = {}
-    for name, get in JOINPOINTS:
-        try:
-            d, k = get(ip)
-        except Exception:
-            jp[name] = "missing"
-            continue
+
+    def slot(d, k):
         if k not in d:
-            jp[name] = "unset"
-            continue
+            return "unset"
         v = d[k]
         depth = 0
         ids = []
@@ -508,13 +633,32 @@ def model_view(ident):
             depth += 1
             ids.append(ident(v))
             v = v.__original__
-        jp[name] = ["adv", depth, ids] if depth else ["ext"]
+        return ["adv", depth, ids] if depth else ["ext"]
+
+    jp = {}
+    for name, get in JOINPOINTS:
+        if ip is None:
+            jp[name] = "unset"       # no shell yet
+            continue
+        try:
+            d, k = get(ip)
+        except Exception:
+            jp[name] = "missing"
+            continue
+        jp[name] = slot(d, k)
     hl = {}
     hlobj = {}
     for name, get in HOOKLISTS:
+        if ip is None:
+            hl[name], hlobj[name] = [], None
+            continue
         hl[name] = [["pf", ident(e)] if _is_pf(e) else ["ext", ident(e)] for e in get(ip)]
         hlobj[name] = ident(get(ip))          # identity of the list object bound now
-    return dict(jp=jp, hl=hl, hlobj=hlobj)
+    ajp = {}
+    if G["app"] is not None:
+        for name in APP_JOINPOINTS:
+            ajp[name] = slot(G["app"].__dict__, name)
+    return dict(jp=jp, hl=hl, hlobj=hlobj, ajp=ajp)
 
 
 # ----------------------------------------------------------------------------
@@ -632,6 +776,13 @@ def do_foreign(op):
         def zzq_foreign_completer(self, event):
             return []
         ip.set_hook("complete_command", zzq_foreign_completer, str_key="zzq_foreign_cmd")
+    elif op == F_WRAP_GM:
+        comp = ip.Completer
+        previous = comp.global_matches
+
+        def zzq_foreign_global_matches(text):
+            return previous(text)
+        comp.global_matches = zzq_foreign_global_matches
     elif op == F_WRAP:
         import types
         inner = ip._ofind
@@ -648,10 +799,31 @@ def hook_names():
     """names of the entries of the hook lists, pyflyby's own shown as 'PF'"""
     ip = G["ip"]
     out = {}
+    if ip is None:
+        return out
     for name, get in HOOKLISTS + [("input_transformers_post", lambda ip: ip.input_transformers_post),
                                   ("custom_matchers", lambda ip: ip.Completer.custom_matchers)]:
         out[name] = ["PF" if _is_pf(e) else _vname(e) for e in get(ip)]
     return out
+
+
+def cell_text(op, name):
+    """the text of an observation op that runs a cell; `name` is the known name the cell reads"""
+    k = name.rsplit("_", 1)[1]
+    mods = os.path.join(G["root"], "mods")
+    if op == "run_cell":
+        return f"{name}.VALUE"
+    if op == "pinfo":
+        return f"{name}.VALUE?"                    # object inspection: the _ofind hook
+    if op == "autocall":
+        return f"{name} 7"                         # `%autocall 1` is in force for this cell: prefilter -> _ofind hook
+    if op == "prun":
+        return f"%prun -q {name}.VALUE"            # the _run_with_profiler hook
+    if op == "run_script":
+        return f"%run {mods}/zzq_scr_{k}.py"       # the safe_execfile hook (the script reads zzq_mod_<k>)
+    if op in ("run_kbint", "run_sysexit"):
+        return f"{name}.x"                         # importing the known module raises KeyboardInterrupt / SystemExit
+    raise ValueError(op)
 
 
 def do_op(op, arg, ident):
@@ -666,19 +838,28 @@ def do_op(op, arg, ident):
             if op == "enable":
                 pyflyby.enable_auto_importer()
             elif op == "enable_again":
-                AutoImporter(ip).enable(even_if_previously_errored=True)
+                AutoImporter(ip if ip is not None else app).enable(even_if_previously_errored=True)
             elif op == "disable":
                 pyflyby.disable_auto_importer()
+            elif op in INIT_OPS:
+                lab_initialize(op == "initialize_ext")
+                ip = G["ip"]
             elif op == "load_ext":
                 r["ret"] = ip.extension_manager.load_extension("pyflyby")
             elif op == "unload_ext":
                 r["ret"] = ip.extension_manager.unload_extension("pyflyby")
             elif op == "reload_ext":
                 r["ret"] = ip.extension_manager.reload_extension("pyflyby")
-            elif op == "run_cell":
+            elif op in CELL_OPS:
                 name = arg
                 before = name in ip.user_ns
-                res = ip.run_cell(f"{name}.VALUE", store_history=False)
+                if op == "autocall":
+                    ip.autocall = 1
+                try:
+                    res = ip.run_cell(cell_text(op, name), store_history=False)
+                finally:
+                    if op == "autocall":
+                        ip.autocall = 0
                 r["cell"] = dict(name=name, bound_before=before,
                                  result=repr(res.result),
                                  err=(type(res.error_in_exec).__name__ if res.error_in_exec is not None else None),
@@ -687,11 +868,13 @@ def do_op(op, arg, ident):
                                  bound_after=name in ip.user_ns)
             elif op.startswith("f_"):
                 do_foreign(op)
-            elif op == "complete":
+            elif op in COMPLETE_OPS:
                 name = arg
-                prefix = name[:-3]
+                prefix = name[:-3] if op == "complete" else name + ".VAL"
+                want = (name,) if op == "complete" else (name + ".VALUE", ".VALUE")     # (IPython 9 returns the attribute part)
                 text, matches = ip.complete(prefix)
-                r["complete"] = dict(name=name, prefix=prefix, has=name in matches, matches=sorted(matches)[:40])
+                r["complete"] = dict(name=name, prefix=prefix, has=any(w in matches for w in want), matches=sorted(matches)[:40],
+                                     bound_after=name in ip.user_ns)
             else:
                 raise ValueError(op)
         except BaseException as e:   # an exception escaping a public entry point
@@ -705,7 +888,8 @@ def do_op(op, arg, ident):
 
 
 def run_c14(job):
-    """job: {"ops": [[op, arg], ...], "pf": bool}  (pf=False: plain-IPython reference: only run_cell/complete are executed)"""
+    """job: {"ops": [[op, arg], ...], "pf": bool}  (pf=False: plain-IPython reference: only cells / completions, third-party
+    steps and app.initialize() are executed)"""
     ident = Ident()
     from pyflyby._log import logger
     logger.set_level(job.get("loglevel", "INFO"))
@@ -714,21 +898,43 @@ def run_c14(job):
     mv0 = model_view(ident)
     steps = []
     prev = s0
+    want_shape = bool(job.get("shapes"))
     for op, arg in job["ops"]:
-        if not job.get("pf", True) and op not in ("run_cell", "complete") and not op.startswith("f_"):
-            steps.append({"op": op, "skipped": True})
-            continue
+        if not job.get("pf", True) and op not in OBS_OPS and not op.startswith("f_") and op != "initialize":
+            if op == "initialize_ext":
+                op = "initialize"           # the reference shell starts without the extension
+            else:
+                steps.append({"op": op, "skipped": True, "shape": shape(prev) if want_shape else None})
+                continue
         r = do_op(op, arg, ident)
+        if op in INIT_OPS:
+            snapshot(ident)                 # throw-away, as above
         s = snapshot(ident)
         r["changed"] = snap_diff(prev, s)         # what this op changed
+        if op in INIT_OPS:
+            # every key of the shell is new here.  From now on the baseline is the shell as it is right after
+            # app.initialize(), minus whatever pyflyby put there during the initialisation (those keys then show up as
+            # differences, like after an ordinary enable); of the step's own changes only the application's keys are kept
+            s0 = {k: v for k, v in s.items() if not _has_pf_tok(v)}
+            r["changed"] = {k: v for k, v in r["changed"].items() if k.startswith("app.")}
         r["diff0"] = snap_diff(s0, s)             # how the shell now differs from the fresh shell
+        if want_shape:
+            r["shape"] = shape(s)
         r["importer"] = importer_view()
         r["mv"] = model_view(ident)
-        r["loaded"] = "pyflyby" in G["ip"].extension_manager.loaded
+        r["loaded"] = G["ip"] is not None and "pyflyby" in G["ip"].extension_manager.loaded
         r["hlnames"] = hook_names()
         steps.append(r)
         prev = s
     return dict(config=G["config"], steps=steps, mv0=mv0, nkeys=len(s0))
+
+
+def _has_pf_tok(tok):
+    if tok is None:
+        return False
+    if tok[0] == "l":
+        return any(t[0] == "o" and t[2] for t in tok[1])
+    return tok[0] == "o" and bool(tok[2])
 
 
 def run_probe(job):
@@ -744,18 +950,45 @@ def run_probe(job):
 # ----------------------------------------------------------------------------
 
 def fill_args(ops):
-    """attach a fresh known name to every run_cell / complete op"""
-    out, k, c = [], 0, 0
+    """attach a fresh known name to every observation op"""
+    out, k, c, q, n = [], 0, 0, 0, 0
     for op in ops:
-        if op == "run_cell":
+        if op in ("run_cell", "pinfo", "prun", "run_script", "complete_attr"):
             out.append([op, f"zzq_mod_{k % N_MODS}"])
             k += 1
+        elif op == "autocall":
+            out.append([op, f"zzq_call_{q % N_CALL}"])
+            q += 1
+        elif op in INTERRUPT_OPS:
+            out.append([op, ("zzq_int_%d" if op == "run_kbint" else "zzq_exit_%d") % (n % N_INT)])
+            n += 1
         elif op == "complete":
             out.append([op, f"zzq_cmp_{CMP[c % len(CMP)]}_mod"])
             c += 1
         else:
             out.append([op, None])
     return out
+
+
+def vary_cells(rng, ops, p=0.45):
+    """replace some run_cell / complete ops by another way of reading a known name, or by an interrupted auto-import"""
+    out = []
+    for op in ops:
+        if op == "run_cell" and rng.random() < p:
+            op = rng.choice(CELL_FORMS[:4] + INTERRUPT_OPS + ["run_kbint"])
+        elif op == "complete" and rng.random() < p:
+            op = "complete_attr"
+        out.append(op)
+    return out
+
+
+def gen_preinit(rng):
+    """enable/disable calls on the not yet initialised application, app.initialize(), then an ordinary history"""
+    pre = [rng.choice(PRE_OPS) for _ in range(rng.choice([1, 1, 2, 2, 3]))]
+    post = gen_ops(rng, 6)[:rng.choice([2, 3, 4])]
+    if not any(o in OBS_OPS for o in post):
+        post.append("run_cell")
+    return pre + [rng.choice(INIT_OPS + ["initialize"])] + vary_cells(rng, post, 0.25)
 
 
 def add_foreign(rng, ops):
